@@ -245,6 +245,10 @@ def write_project(root, slots, backend):
             # what was declared for the program.
             open(os.path.join(src, 's%s.c' % i), 'w').close()
             open(os.path.join(src, 'd%s.c' % i), 'w').close()
+            open(os.path.join(src, 'q%s.c' % i), 'w').close()
+            # (declared after a program without libraries: what is written
+            # once per kind of step must not depend on who comes first)
+            L.append("executable(%r, [%r])" % ('q' + i, 'q%s.c' % i))
             L.append("_d = shared_library(%r, [%r])" % ('D' + i, 'd%s.c' % i))
             L.append("executable(%r, [%r], libs=[_d], link_options=%r)" % (
                 'p' + i, 's%s.c' % i, ['-DVB=' + i, w, '-DVE=' + i]))
@@ -474,6 +478,15 @@ def run_project(slots, backend, ninja=None):
                     leak += [x for k, x in enumerate(a) if k != o + 1 and
                              os.path.basename(x) == own]
                     ev['delivered'] = [syms(x) for x in leak]
+                    # ... while the program's own link step is given the
+                    # library (whatever was declared before it)
+                    ps = [r for r in links if '-o' in r['argv'] and
+                          os.path.basename(r['argv'][r['argv'].index('-o') +
+                                                     1]) == 'p' + i]
+                    if ps and not any(os.path.basename(x) == own
+                                      for x in ps[0]['argv']):
+                        ev['delivered'].append(syms(
+                            '<<program linked without its library>>'))
             elif s.pos == 'tool_word':
                 rs = [r for r in compiles if ('-DVB=' + i) in r['argv']]
                 if rs:
